@@ -527,6 +527,40 @@ def _check_parallel_order(ctx, prog, exp_ci):
             n += 1
             (k1, r1, t1), (k2, r2, t2) = cls["MYGEOMETRYIDS"], cls["MYVALUES"]
             st = names["MYGEOMETRYIDS"][1]
+            # one identifier per element but one value row per (element, node): the rows of every element must be contiguous and
+            # the elements in the identifiers' order.  Recognised construction: the frame is re-ordered with a stable argsort of
+            # the rank of each row's element in the identifier array itself - parallel by construction, whatever order the ids have.
+            ids_e = _unwrap_data(next(k.value for k in names["MYGEOMETRYIDS"][0].keywords if k.arg == "data"))
+            per_element = isinstance(ids_e, ast.Name) and any(
+                isinstance(x, ast.Call) and (call_name(x) in ("np.unique",) or (isinstance(x.func, ast.Attribute) and
+                                                                                 x.func.attr in ("drop_duplicates", "unique")))
+                for d_ in defs.get(ids_e.id, []) for x in ast.walk(d_))
+            if per_element:
+                vroot = r2
+                regroup = None
+                for d_ in defs.get(vroot, []):
+                    if isinstance(d_, ast.Subscript) and isinstance(d_.value, ast.Attribute) and d_.value.attr == "iloc" and \
+                            isinstance(d_.slice, ast.Call) and call_name(d_.slice) == "np.argsort" and \
+                            any(k.arg == "kind" and const_value(k.value) == "stable" for k in d_.slice.keywords):
+                        regroup = d_
+                rank_ok = False
+                if regroup is not None:
+                    key = regroup.slice.args[0]
+                    ranks = [n_.value.id for n_ in ast.walk(key) if isinstance(n_, ast.Subscript) and isinstance(n_.value, ast.Name)]
+                    for rk in ranks:
+                        for d_ in defs.get(rk, []):
+                            if isinstance(d_, ast.Call) and call_name(d_) == "pd.Series" and \
+                                    any(k.arg == "index" and isinstance(k.value, ast.Name) and k.value.id == ids_e.id for k in d_.keywords):
+                                rank_ok = True
+                if rank_ok:
+                    ctx.holds(f, st, "%s: value rows are regrouped by a stable argsort of each row's rank in the identifier array %s: "
+                              "element blocks contiguous and in the identifiers' order" % (f.name, ids_e.id))
+                else:
+                    ctx.violated(f, st, "%s: the identifiers %s hold one id per element, the values %s one row per (element, node) in "
+                                 "the frame's row order: unless the rows of every element are contiguous and the elements in the "
+                                 "identifiers' order, the importer (which rebuilds the index element by element) attaches values "
+                                 "to the wrong rows" % (f.name, t1, t2), text="element rows not regrouped")
+                continue
             if k1 is None or k2 is None:
                 raise AnalysisError("%s: order class of %s / %s unknown" % (f.key, t1, t2))
             if k1 == k2 and r1 == r2:
@@ -880,7 +914,12 @@ def _check_locations(ctx, prog, W, R, exp_ci, imp_ci):
                             if isinstance(c.func, ast.Attribute) and c.func.attr == "create_dataset" and \
                                     const_value(c.args[0]) == "MYGEOMETRYIDS":
                                 d = kwarg(c, "data")
-                                nm = names_in(d)
+                                nm = set(names_in(d))
+                                for _ in range(3):      # follow local definitions transitively
+                                    for b2 in block:
+                                        if isinstance(b2, ast.Assign) and any(isinstance(t, ast.Name) and t.id in nm
+                                                                              for t in b2.targets):
+                                            nm |= set(names_in(b2.value))
                                 for b2 in block:
                                     if isinstance(b2, ast.Assign) and any(isinstance(t, ast.Name) and t.id in nm
                                                                           for t in b2.targets):
@@ -1210,14 +1249,35 @@ def variants():
         return False
     out.append(witness("3-D detection with np.allclose", EXP_PATH, dim_allclose, "R-C20-7"))
 
-    def sorted_element_ids(tree):
+    def no_regroup(tree):
+        f = find_func(tree, "VMAPExport.add_variable")
+        for n in ast.walk(f):
+            if isinstance(n, ast.Assign) and isinstance(n.targets[0], ast.Name) and isinstance(n.value, ast.Subscript) and \
+                    "argsort" in ast.unparse(n.value):
+                return replace_node(n, None)
+        return False
+    out.append(witness("element-nodal values written in raw row order", EXP_PATH, no_regroup, "R-C20-5"))
+
+    def rank_of_other_ids(tree):
+        f = find_func(tree, "VMAPExport.add_variable")
+        for n in ast.walk(f):
+            if isinstance(n, ast.Call) and call_name(n) == "pd.Series" and any(k.arg == "index" for k in n.keywords) and \
+                    "arange" in ast.unparse(n):
+                for k in n.keywords:
+                    if k.arg == "index":
+                        k.value = parse_expr("np.unique(element_index)")
+                return True
+        return False
+    out.append(witness("rows regrouped by the rank in another id array than the one written", EXP_PATH, rank_of_other_ids, "R-C20-5"))
+
+    def sorted_ids_consistent(tree):
         f = find_func(tree, "VMAPExport.add_variable")
         for n in ast.walk(f):
             if isinstance(n, ast.Assign) and isinstance(n.targets[0], ast.Name) and "drop_duplicates" in ast.unparse(n.value):
-                n.value = parse_expr("np.unique(mesh.index.get_level_values('element_id'))")
+                n.value = parse_expr("np.unique(element_index)")
                 return True
         return False
-    out.append(witness("element ids of a variable written in sorted order", EXP_PATH, sorted_element_ids, "R-C20-5"))
+    out.append(twin("element ids sorted, rows regrouped by their rank in the same array", EXP_PATH, sorted_ids_consistent))
 
     def unkeyed_cache(tree):
         f = find_func(tree, "VMAPImport._mesh_index")
